@@ -115,6 +115,39 @@ def lcpLemke (n : Nat) (Mm : Nat → Nat → α) (q d : Nat → α) (maxIter : N
     let o := lemkeRun n Mm q d maxIter tolPiv tolDiff
     ⟨getSolution n o.T o.basis, o.status == 0, o.status, o.numIter, some o.basis⟩
 
+/-! ### degeneracy counters (driver-side instrumentation, not part of the algorithm) -/
+
+/-- number of ratio tests along the run of `lemkeLoop` whose first pass (`test_col = -1`)
+    left two or more candidate rows, i.e. in which the lexicographic tie-breaking columns
+    were consulted. Mirrors the recursion of `lemkeLoop`. -/
+def lemkeTies (n : Nat) (tolPiv tolDiff : α) : Nat → M α → (Nat → Nat) → Nat → Nat
+  | 0, _, _, _ => 0
+  | fuel + 1, T, basis, pivcol =>
+    let a0 := minRatioNoTie T pivcol (T.nc - 1) (List.range T.nr) tolPiv tolDiff
+    let t := if a0.length ≥ 2 then 1 else 0
+    let fr := lexMinRatio T pivcol 0 tolPiv tolDiff
+    if fr.1 = false then t
+    else
+      let pivrow := fr.2
+      let leaving := basis pivrow
+      if leaving = 2 * n then t
+      else t + lemkeTies n tolPiv tolDiff fuel (pivot T pivcol pivrow) (setBasis basis pivrow pivcol)
+                (complement n leaving)
+
+/-- number of rows other than the chosen one whose ratio `q_i/d_i` is within `tolDiff`
+    of the chosen row's ratio (ties of the first, hand-written ratio test) -/
+def firstTies (n : Nat) (q d : Nat → α) (tolDiff : α) : Nat :=
+  let r := firstPivotRow n q d tolDiff
+  ((List.range n).filter fun i =>
+    i != r && decide (q i / d i ≤ q r / d r + tolDiff) && decide (q r / d r ≤ q i / d i + tolDiff)).length
+
+/-- ties met along the whole run of `lcpLemke` (0 on the trivial exit) -/
+def lcpTies (n : Nat) (Mm : Nat → Nat → α) (q d : Nat → α) (maxIter : Nat) (tolPiv tolDiff : α) : Nat :=
+  if trivialExit n q then 0
+  else
+    let fp := firstPivot n Mm q d tolDiff
+    firstTies n q d tolDiff + lemkeTies n tolPiv tolDiff (maxIter - 1) fp.1 fp.2.1 fp.2.2
+
 /-! ### line protocol -/
 
 def showResult (sh : α → String) (n : Nat) (r : LCPResult α) : String :=
@@ -132,7 +165,7 @@ def fnOfList {β : Type} [Zero β] (l : List β) : Nat → β := fun i => l.getD
 def fnOfMat {β : Type} [Zero β] (l : List (List β)) : Nat → Nat → β := fun i j => (l.getD i []).getD j 0
 
 def wellShaped {β : Type} (n : Nat) (Mm : List (List β)) (q d : List β) : Bool :=
-  Mm.length == n && Mm.all (fun r => r.length == n) && q.length == n && d.length == n
+  n ≥ 1 && Mm.length == n && Mm.all (fun r => r.length == n) && q.length == n && d.length == n
 
 def handle (toks : List String) : String :=
   match toks with
@@ -142,7 +175,8 @@ def handle (toks : List String) : String :=
           kvRat r "tolpiv", kvRat r "toldiff" with
     | some n, some Mm, some q, some d, some mi, some tp, some td =>
       if wellShaped n Mm q d then
-        showResult showRat n (lcpLemke n (fnOfMat Mm) (fnOfList q) (fnOfList d) mi tp td)
+        showResult showRat n (lcpLemke n (fnOfMat Mm) (fnOfList q) (fnOfList d) mi tp td) ++
+        " ties=" ++ toString (lcpTies n (fnOfMat Mm) (fnOfList q) (fnOfList d) mi tp td)
       else "bad-op"
     | _, _, _, _, _, _, _ => "bad-op"
   | "lemkef" :: r =>
@@ -158,8 +192,14 @@ def handle (toks : List String) : String :=
     match kvNat r "n", kvRats r "q", kvRats r "d", kvRat r "toldiff" with
     | some n, some q, some d, some td =>
       if q.length == n && d.length == n && n ≥ 1 then
-        toString (firstPivotRow n (fnOfList q) (fnOfList d) td) ++ " " ++
-        toString (firstPivotRowBuggy n (fnOfList q) (fnOfList d) td)
+        toString (firstPivotRow n (fnOfList q) (fnOfList d) td)
+      else "bad-op"
+    | _, _, _, _ => "bad-op"
+  | "firstrowf" :: r =>
+    match kvNat r "n", kvFloats r "q", kvFloats r "d", (kv r "toldiff").bind parseFloat? with
+    | some n, some q, some d, some td =>
+      if q.length == n && d.length == n && n ≥ 1 then
+        toString (firstPivotRow n (fnOfList q) (fnOfList d) td)
       else "bad-op"
     | _, _, _, _ => "bad-op"
   | _ => "bad-op"
